@@ -151,7 +151,10 @@ class _STIXBase(collections.abc.Mapping):
                     )
                     if registered_ext_class:
                         registered_toplevel_extension_props.update(
-                            registered_ext_class._toplevel_properties,
+                            getattr(
+                                registered_ext_class, "_toplevel_properties",
+                                None,
+                            ) or {},
                         )
                     else:
                         has_unregistered_toplevel_extension = True
